@@ -540,6 +540,24 @@ def _cls_has(n, c):
     return hit != n["neg"]
 
 
+_FAST_REP = True
+
+
+def _atom_pred(n):
+    k = n["k"]
+    if k == "lit":
+        c = n["c"]
+        return lambda x: x == c
+    if k == "esc":
+        c = _ESC[n["e"]]
+        return lambda x: x == c
+    if k == "any":
+        return lambda x: x != "\n"
+    if k == "cat":
+        return (lambda x: x.isdecimal()) if n["c"] == "d" else _is_word
+    return lambda x: _cls_has(n, x)
+
+
 def _ends(n, s, starts):
     k = n["k"]
     L = len(s)
@@ -575,6 +593,43 @@ def _ends(n, s, starts):
         return _ends(n["body"], s, starts)
     if k == "rep":
         mn, mx = n["min"], n["max"]
+        b = n["body"]
+        if _FAST_REP and b["k"] in ("lit", "esc", "any", "cat", "class"):
+            # a repeated single-character atom: one pass computing, for every start, how far the run of
+            # matching characters reaches (b{65535} after an open-ended repeat is 65535 set sweeps otherwise)
+            ends = _RUN_CACHE.get(id(b))
+            if ends is None or len(ends) != L + 1:
+                # ends[i] = first position >= i whose character does not match the atom (or L); computed once
+                # per (atom, string) and shared by every call an enclosing repeat makes
+                ok = _atom_pred(b)
+                ends = [L] * (L + 1)
+                for i in range(L - 1, -1, -1):
+                    ends[i] = ends[i + 1] if ok(s[i]) else i
+                _RUN_CACHE[id(b)] = ends
+            spans = []
+            for p0 in starts:
+                if p0 > L:
+                    continue
+                j = ends[p0]
+                hi = j if mx is None else min(j, p0 + mx)
+                lo = p0 + mn
+                if lo <= hi:
+                    spans.append((lo, hi))
+            # union of the intervals, materialised once (each start contributing its whole interval is
+            # quadratic when thousands of starts share one long run)
+            out = set()
+            spans.sort()
+            cur_lo = cur_hi = None
+            for lo, hi in spans:
+                if cur_hi is None or lo > cur_hi + 1:
+                    if cur_hi is not None:
+                        out.update(range(cur_lo, cur_hi + 1))
+                    cur_lo, cur_hi = lo, hi
+                elif hi > cur_hi:
+                    cur_hi = hi
+            if cur_hi is not None:
+                out.update(range(cur_lo, cur_hi + 1))
+            return out
         cur = set(starts)
         for _ in range(mn):
             cur = _ends(n["body"], s, cur)
@@ -594,8 +649,15 @@ def _ends(n, s, starts):
     raise ValueError("no reference semantics for %r" % (k,))
 
 
+_RUN_CACHE = {}
+
+
 def ast_fullmatch(ast, s):
-    return len(s) in _ends(ast["body"], s, {0})
+    _RUN_CACHE.clear()
+    try:
+        return len(s) in _ends(ast["body"], s, {0})
+    finally:
+        _RUN_CACHE.clear()
 
 
 def sample_min(ast, letters=ASCII_LETTERS_DEFAULT):
